@@ -7,6 +7,7 @@ import (
 	"fmt"
 	"math"
 	"os"
+	"strings"
 	"time"
 
 	"github.com/zalf-rpm/Hermes2Go/hermes"
@@ -134,6 +135,15 @@ func runTrajectory(sc *Scenario, env *Env, oc *OutputCfg, oracles []Oracle, extr
 	if out.Panic != "" {
 		res.Status = "crash"
 		res.Note = "panic: " + shortPanic(out.Panic)
+		if where, model := panicOrigin(out.Panic); model {
+			// valid input must never make the model panic: the run did not complete, so none of its invariants can hold
+			file := where
+			if i := strings.LastIndexByte(file, ':'); i > 0 {
+				file = file[:i]
+			}
+			res.Violations = append(res.Violations, Violation{Prop: sc.Prop, Oracle: "run-completes", Class: "model-panic@" + file,
+				Detail: "the run panicked inside the model on a valid input: " + firstLine(out.Panic) + " at " + where})
+		}
 	} else if !out.Success {
 		res.Status = "invalid"
 		res.Note = "run error: " + out.Err
